@@ -191,11 +191,20 @@ def check(run, prog, tier):
     canc = prog.lookup_method(COL, "cancel")
     cc = {fi.qual for fi, r, e in scan.callers_of(canc.qual)} if canc else set()
     # the timer handle itself: cancelled nowhere but in cancel()
-    for fi, r, e in scan.all():
-        if e.kind == "call" and e.attrname == "cancel" and e.recv is not None and e.recv[0] == "attr" and fi is not canc:
-            ty = scan.eng.typer.type_of(e.recv[1])
-            if (e.recv[1] == cme or ty == ("cls", COL)) and prog.lookup_method(COL, e.recv[2]) is None:
-                cc.add(f"{fi.qual} (cancels .{e.recv[2]})")
+    for (fq_, r_), ps_ in scan.paths.items():
+        fi = prog.functions[fq_]
+        if fi is canc or fq_ in scan.absorbed:
+            continue
+        for p_ in ps_:
+            for e in p_.events:
+                if e.kind == "call" and e.attrname == "cancel" and e.recv is not None and e.recv[0] == "attr":
+                    ty = scan.eng.typer.type_of(e.recv[1])
+                    if (e.recv[1] == cme or ty == ("cls", COL)) and prog.lookup_method(COL, e.recv[2]) is None:
+                        # cancelled and armed again in the same step: the deadline moves (U2 deadline-not-moved, a timing
+                        # matter), the collector still flushes
+                        rearmed = any(e2.kind == "store" and e2.target == e.recv and e2.seq > e.seq for e2 in p_.events)
+                        if not rearmed:
+                            cc.add(f"{fi.qual} (cancels .{e.recv[2]})")
     run.ob("U2", f"{COL}:nobody-cancels-a-collector", not cc, loc(canc or init), f"cancel() callers: {sorted(cc) or 'none'} (a cancelled collector would drop its entries)")
     # other writers of send_queues
     w = {fi.qual for fi, r, e in scan.all() if (e.kind == "store" and e.target is not None and contains(e.target, lambda s: s[0] == "attr" and s[2] == "send_queues")
